@@ -348,6 +348,141 @@ class Facts:
             for f in d["fns"]:
                 self.fns[f["path"]] = f
         self._callers = None
+        self.inlined_helpers = []
+        self._inline_new_helpers()
+
+    # ------------------------------------------------------------------ helper inlining
+    def _inline_new_helpers(self):
+        """Virtual inlining of helper functions that do not exist on the reference tree.
+
+        The rules name functions of the pinned tree. When a maintainer extracts a few lines of one of them into a new
+        private helper, the code the rules reason about has moved, not changed. Every function that is NOT in
+        rulekit/known_fns.json (the function list of the reference tree), is small, non-recursive and called by
+        resolved path is spliced into each of its call sites (locals and blocks renumbered, parameters assigned from
+        the arguments, `return` turned into an assignment of the destination plus a jump, unwinding routed to the call's
+        unwind target) and removed from the program as a body of its own. A change hidden in such a helper is
+        therefore seen exactly as if it had been written in place."""
+        import copy
+        import json as _json
+        import os as _os
+        kp = _os.path.join(_os.path.dirname(_os.path.abspath(__file__)), "known_fns.json")
+        if not _os.path.exists(kp):
+            return
+        with open(kp) as fh:
+            known = set(_json.load(fh))
+        for _round in range(3):
+            new = {}
+            for b in self.body_list:
+                if b.kind in ("closure", "coroutine") or b.crate.startswith("fx_") or b.path in known:
+                    continue
+                if b.trait or len(b.blocks) > 60:
+                    continue            # trait impl methods are reached through the trait, not by path
+                if any(t["callee"].get("path") == b.path or t["callee"].get("resolved") == b.path for bb, t in b.calls()):
+                    continue            # recursive
+                new[b.path] = b
+            if not new:
+                return
+            done = set()
+            for caller in list(self.body_list):
+                if caller.path in new:
+                    continue
+                changed = True
+                guard = 0
+                while changed and guard < 20:
+                    changed = False
+                    guard += 1
+                    for bb in range(len(caller.blocks)):
+                        t = caller.blocks[bb]["term"]
+                        if t["k"] != "call":
+                            continue
+                        tgt = t["callee"].get("resolved") or t["callee"].get("path")
+                        if tgt not in new and t["callee"].get("path") in new:
+                            tgt = t["callee"].get("path")
+                        h = new.get(tgt)
+                        if h is None or h.crate != caller.crate or len(t["argv"]) != h.argc:
+                            continue
+                        self._splice(caller, bb, h, copy)
+                        done.add(h.path)
+                        changed = True
+                        break
+            if not done:
+                return
+            for hp in done:
+                self.inlined_helpers.append(hp)
+                hb = self.bodies.pop(hp, None)
+                if hb is not None:
+                    self.body_list = [x for x in self.body_list if x is not hb]
+                    if hb.root and hb in self.by_root.get(hb.root, []):
+                        self.by_root[hb.root].remove(hb)
+
+    @staticmethod
+    def _shift(obj, loff, boff):
+        """Deep copy of a MIR JSON fragment with locals shifted by loff (places are dicts with an int 'l' that are not
+        spans)."""
+        if isinstance(obj, list):
+            return [Facts._shift(x, loff, boff) for x in obj]
+        if isinstance(obj, dict):
+            out = {}
+            is_place = isinstance(obj.get("l"), int) and "f" not in obj and "c" not in obj
+            for k, v in obj.items():
+                if k in ("sp", "callee", "const", "dbg", "agg"):
+                    out[k] = v
+                elif k == "l" and is_place:
+                    out[k] = v + loff
+                else:
+                    out[k] = Facts._shift(v, loff, boff)
+            return out
+        return obj
+
+    def _splice(self, caller, bb, h, copy):
+        loff = len(caller.locals)
+        boff = len(caller.blocks)
+        call = caller.blocks[bb]["term"]
+        dest = call.get("dest")
+        ret = call.get("ret")
+        unw = call.get("unwind")
+        caller.locals.extend(h.locals)
+        caller.raw.setdefault("vars", [])
+        for l, n in h.varnames.items():
+            caller.varnames.setdefault(l + loff, n)
+        # parameters
+        blk = caller.blocks[bb]
+        for k, a in enumerate(call["argv"]):
+            blk["stmts"].append({"k": "assign", "lhs": {"l": loff + 1 + k}, "rv": {"use": a}, "sp": call.get("sp")})
+        blk["term"] = {"k": "goto", "bb": boff, "sp": call.get("sp"), "inlined": h.path}
+        for hb in h.blocks:
+            nb = {"stmts": self._shift(hb["stmts"], loff, boff), "term": self._shift(hb["term"], loff, boff)}
+            if hb.get("cleanup"):
+                nb["cleanup"] = True
+            t = nb["term"]
+            k = t["k"]
+            if k == "goto":
+                t["bb"] += boff
+            elif k == "switch":
+                t["arms"] = [[a[0], a[1] + boff] for a in t["arms"]]
+                t["otherwise"] += boff
+            if k in ("call", "drop", "assert", "yield"):
+                if t.get("ret") is not None:
+                    t["ret"] += boff
+                if isinstance(t.get("unwind"), int):
+                    t["unwind"] += boff
+                elif t.get("unwind") == "continue":
+                    t["unwind"] = unw if unw is not None else "continue"
+                if k == "yield" and isinstance(t.get("drop"), int):
+                    t["drop"] += boff
+            if k == "return":
+                if dest is not None:
+                    nb["stmts"].append({"k": "assign", "lhs": dest, "rv": {"use": {"move": {"l": loff}}}, "sp": call.get("sp")})
+                nb["term"] = {"k": "goto", "bb": ret, "sp": t.get("sp")} if ret is not None else {"k": "unreachable", "sp": t.get("sp")}
+            elif k == "resume" and isinstance(unw, int):
+                nb["term"] = {"k": "goto", "bb": unw, "sp": t.get("sp")}
+            caller.blocks.append(nb)
+        # promoted constants of the helper are referenced by index: keep them reachable under the helper's name
+        caller.raw.setdefault("inlined", []).append(h.path)
+        caller._succ = {}
+        caller._dom = {}
+        caller._pdom = {}
+        caller._defs = None
 
     def body(self, path):
         return self.bodies.get(path)
@@ -363,6 +498,10 @@ class Facts:
         for b in self.by_root.get(root, []):
             if b.path != body.path and b.path.startswith(body.path + "::"):
                 out.append(b)
+        for hp in body.raw.get("inlined", []):
+            for b in self.body_list:
+                if b.path.startswith(hp + "::{closure") and b not in out:
+                    out.append(b)
         return out
 
     def callers(self):
